@@ -46,7 +46,10 @@ impl Delay {
 
 impl Effect for Delay {
 	fn init(&mut self, sample_rate: u32, internal_buffer_size: usize) {
-		let delay_time_frames = (self.delay_time.as_secs_f64() * sample_rate as f64) as usize;
+		// the nearest whole number of frames (truncating would turn e.g. 9 ms at 48 kHz,
+		// 431.99999999999994 frames, into 431), and never an empty delay line
+		let delay_time_frames =
+			((self.delay_time.as_secs_f64() * sample_rate as f64).round() as usize).max(1);
 		self.buffer = vec![Frame::ZERO; delay_time_frames];
 		self.temp_buffer = vec![Frame::ZERO; internal_buffer_size];
 		for effect in &mut self.feedback_effects {
@@ -55,7 +58,10 @@ impl Effect for Delay {
 	}
 
 	fn on_change_sample_rate(&mut self, sample_rate: u32) {
-		let delay_time_frames = (self.delay_time.as_secs_f64() * sample_rate as f64) as usize;
+		// the nearest whole number of frames (truncating would turn e.g. 9 ms at 48 kHz,
+		// 431.99999999999994 frames, into 431), and never an empty delay line
+		let delay_time_frames =
+			((self.delay_time.as_secs_f64() * sample_rate as f64).round() as usize).max(1);
 		self.buffer = vec![Frame::ZERO; delay_time_frames];
 		for effect in &mut self.feedback_effects {
 			effect.on_change_sample_rate(sample_rate);
